@@ -208,6 +208,8 @@ var W *World
 
 var gen uint32
 
+var recBuf []Decision
+
 //go:norace
 func (w *World) next() uint64 {
 	w.rng += 0x9e3779b97f4a7c15
@@ -229,7 +231,11 @@ func NewWorld(cfg Config, replay []Decision, mode int) *World {
 	if cfg.Procs <= 0 {
 		cfg.Procs = 1
 	}
-	w := &World{Cfg: cfg, Gen: gen, rng: cfg.Seed, rec: make([]Decision, MaxDecisions)}
+	if recBuf == nil {
+		recBuf = make([]Decision, MaxDecisions)
+	}
+	// one world runs at a time: the decision buffer is reused (Decisions() copies)
+	w := &World{Cfg: cfg, Gen: gen, rng: cfg.Seed, rec: recBuf}
 	w.Hash = 14695981039346656037
 	if replay != nil {
 		w.replay = replay
